@@ -74,7 +74,9 @@ def gradient_lists_in_order(fn, names):
             its.extend(g.iter for g in n.generators)
         for it in its:
             used = {x.id for x in ast.walk(it) if isinstance(x, ast.Name)} & set(names)
-            if used and not isinstance(it, ast.Name):
+            order_kept = isinstance(it, ast.Call) and isinstance(it.func, ast.Name) and it.func.id in ("enumerate", "zip") \
+                and all(isinstance(a_, (ast.Name, ast.Attribute)) for a_ in it.args) and not it.keywords
+            if used and not isinstance(it, ast.Name) and not order_kept:
                 problems.append(f"`{ast.unparse(it)}` (line {it.lineno}) re-orders or subsets the gradient list {sorted(used)}")
     return problems
 
